@@ -498,7 +498,7 @@ static void do_tabledec() {
     f['b'] = 1u << 18;
     f[0] = 1u << 16;
     std::vector<std::string> w;
-    for (int n = 1; n <= 40; n++) {
+    for (int n = 1; n <= 300; n += (n < 40 ? 1 : 13)) {
       w.push_back(std::string(n, 'a'));
       w.push_back(std::string(n, 'a') + "b");
       w.push_back(std::string(n, 'a') + "ba");
